@@ -142,8 +142,14 @@ def judge(ctx, g, src_repo, tgt_repo, E, same_model, src_rich, stacked, label, h
             continue
         st = observe.snap_tree(src_repo.revision_tree(r))
         if tt != st:
-            diff = sorted(p for p in set(tt) | set(st) if tt.get(p) != st.get(p))[:4]
-            ctx.fail("tree:differs", "%s: %r differs at %r" % (label, r, diff), d)
+            diff = sorted(p for p in set(tt) | set(st) if tt.get(p) != st.get(p))
+            bad = L.sha_mismatches(tgt_repo.revision_tree(r), [p for p in diff if p in tt])
+            if bad and len(bad) == len(diff):
+                # same inventory, different bytes: the target's storage layer hands out a text that does not hash to its recorded sha1
+                ctx.fail("stored-text:" + L.corruption_kind(tt[bad[0]][1], st.get(bad[0], (None, None))[1]), "%s: %r: target bytes of %r do not hash to the recorded text_sha1 (got %r, source has %r)" % (
+                    label, r, bad[:3], tt[bad[0]][1][-40:], st.get(bad[0], (None, b""))[1][-40:]), d)
+            else:
+                ctx.fail("tree:differs", "%s: %r differs at %r" % (label, r, diff[:4]), d)
         # 6. signatures
         if r not in old and src_repo.has_signature_for_revision_id(r):
             ctx.count("signature")
